@@ -41,9 +41,14 @@ func genUint(rng *rand.Rand, bits int) uint64 {
 
 var strLens = []int{0, 1, 1, 1, 2, 3, 8, 20, 31, 32, 33, 54, 55, 56, 57, 255, 256, 257, 1024, 65535, 65536}
 
+// genBudget bounds the total string payload of one generated value (inputs stay well below 1 MiB).
+var genBudget int
+
 func genBytes(rng *rand.Rand, depth int) []byte {
 	var n int
 	switch {
+	case genBudget <= 0:
+		n = strLens[rng.Intn(8)]
 	case depth > 1:
 		n = strLens[rng.Intn(12)]
 	case rng.Intn(6) == 0:
@@ -51,6 +56,7 @@ func genBytes(rng *rand.Rand, depth int) []byte {
 	default:
 		n = strLens[rng.Intn(14)]
 	}
+	genBudget -= n
 	b := make([]byte, n)
 	switch rng.Intn(4) {
 	case 0: // zeros
